@@ -192,6 +192,10 @@ func (rc *runCtx) runJob(ph phase, job Job, wallLimit time.Duration, worker int)
 		res.Killed = true
 		res.Exit = -2
 	}
+	if res.Exit == 5 {
+		// the engine's own watchdog: no scheduler step for 25 s of real time (a hang)
+		res.Killed = true
+	}
 	res.Stderr = tail(stderr.String(), 6000)
 	if b, err := os.ReadFile(job.Out + ".log"); err == nil {
 		res.RunLog = tail(string(b), 3000)
